@@ -318,9 +318,12 @@ class World:
                     nxt.append(g)
             for q in list(touched):
                 ci = prog.classes[q]
+                # a class with a base outside the product (e.g. rustworkx DFSVisitor) is driven by
+                # external callbacks: all of its methods may run
+                external = any(b not in ("object",) and prog.resolve_class(b.split(".")[-1], ci.module) is None for b in ci.bases)
                 for c in prog.mro(ci):
                     for mn, g in c.methods.items():
-                        if mn.startswith("__") and mn.endswith("__") and g.qualname not in seen:
+                        if (external or (mn.startswith("__") and mn.endswith("__"))) and g.qualname not in seen:
                             nxt.append(g)
             work.extend(g for g in nxt if g.qualname not in seen)
         return seen
@@ -1308,7 +1311,690 @@ def _reorders(e):
     return any(isinstance(x, ast.Call) and call_name(x) in ("reversed", "sorted", "set", "frozenset", "as_completed") for x in ast.walk(e)) or any(isinstance(x, ast.Slice) and x.step is not None for x in ast.walk(e))
 
 
+# =====================================================================================================
+# R3 — no hash-order dependence
+# =====================================================================================================
+# Hand-confirmed role table (DESIGN 2.2): what iterating these yields.  Node identifiers are ints
+# (create_root_node numbers nodes, relabel_nodes uses a counter; the str 'root' is the dummy root and
+# is never among roots / children / nodes); data-point indices are enumeration indices; DataPoint
+# hashes by its name (a str, so its hash is randomised per process).
+ATTR_ELEMS = {"tree_roots": "int", "roots": "int", "nodes": "int", "tree_nodes": "int", "outliers": "obj", "data": "obj", "particles": "obj"}
+CALL_ELEMS = {"get_children": "int", "get_descendants": "int", "get_data": "obj", "range": "int", "node_indices": "int", "successors": "obj", "predecessors": "obj"}
+ATTR_KIND = {"idx": "int", "node_id": "int", "name": "str", "node_last_added_to": "int"}
+CALL_KIND = {"int": "int", "len": "int", "sum": "int", "str": "str", "repr": "str", "format": "str", "xxh3_64_hexdigest": "str", "hexdigest": "str", "num_nodes": "int", "add_node": "int"}
+SAME_ELEMS = {"list", "tuple", "sorted", "reversed", "set", "frozenset", "asarray", "array", "copy", "tolist", "choice", "unique", "iter"}
+SET_RETURNING_EXTERNALS = {"rustworkx.descendants": "int", "rustworkx.ancestors": "int"}
+SET_METHODS_SAME = {"copy", "union", "intersection", "difference", "symmetric_difference"}
+DET = {"int", "fsint"}
+
+FREE_FUNCS = {"len", "set", "frozenset", "hash", "isinstance", "bool", "any", "all", "type", "print", "id"}
+SORTLIKE = {"sorted", "min", "max", "sum"}
+FREE_METHODS = {"add", "update", "discard", "remove", "union", "intersection", "difference", "symmetric_difference", "issubset", "issuperset", "isdisjoint", "isin", "intersection_update", "difference_update", "symmetric_difference_update", "get", "setdefault", "append", "copy", "clear", "__contains__", "count", "index", "cache_clear"}
+
+
+class SetFacts:
+    def __init__(self, world, tracer):
+        self.w, self.t, self.prog = world, tracer, world.prog
+        self.var = {}      # (scope qualname, name) -> set(site)
+        self.attr = {}     # attr -> {site}
+        self.attr_owner = {}  # attr -> set of class qualnames that store a set in self.attr
+        self.dos_var, self.dos_attr = {}, {}   # containers (dict / defaultdict) of sets
+        self.ret = {}      # fn qualname -> {site}
+        self.ek = {}       # site -> set(kinds)
+        self.info = {}     # site -> (scope, node)
+        self.changed = False
+        self._bound = {}
+        self._busy = set()
+        self.kinds_on = False
+
+    # ---- helpers --------------------------------------------------------------------------------
+    def builtin(self, name, fi):
+        m = fi.module
+        if m.name not in self._bound:
+            b = set(m.imports)
+            for n in ast.walk(m.tree):
+                if isinstance(n, ast.Name) and isinstance(n.ctx, ast.Store):
+                    b.add(n.id)
+                elif isinstance(n, ast.arg):
+                    b.add(n.arg)
+                elif isinstance(n, (ast.FunctionDef, ast.ClassDef)):
+                    b.add(n.name)
+            self._bound[m.name] = b
+        return name not in self._bound[m.name]
+
+    def site(self, fi, node, kinds=()):
+        sid = "%s: %s @%s" % (fi.qualname, u(node)[:60], fi.where(node))
+        if sid not in self.info:
+            self.info[sid] = (fi, node)
+            self.ek[sid] = set()
+            self.changed = True
+        self.add_ek({sid}, kinds)
+        return sid
+
+    def add_ek(self, sites, kinds):
+        if not self.kinds_on:
+            return
+        for s in sites:
+            k = set(kinds) - self.ek[s]
+            if k:
+                self.ek[s] |= k
+                self.changed = True
+
+    def _add(self, table, key, sites):
+        if not sites:
+            return
+        cur = table.setdefault(key, set())
+        new = set(sites) - cur
+        if new:
+            cur |= new
+            self.changed = True
+
+    def family(self, cls):
+        return {c.qualname for c in self.prog.mro(cls)} | {c.qualname for c in self.prog.subclasses(cls)}
+
+    def attr_sites(self, e, fi, table=None):
+        table = self.attr if table is None else table
+        got = table.get(e.attr)
+        if not got:
+            return set()
+        cls = self.w.owner_class(fi)
+        if isinstance(e.value, ast.Name) and e.value.id == "self" and cls is not None:
+            owners = self.attr_owner.get(e.attr, set()) - {"*"}
+            if owners and not (owners & self.family(cls)):
+                return set()
+        return set(got)
+
+    # ---- is this expression a set?  -> set of sites (empty = not a set) ----------------------------
+    def sets(self, e, fi):
+        w = self.w
+        if isinstance(e, ast.Name):
+            return set(self.var.get((fi.qualname, e.id), ())) if isinstance(e.ctx, ast.Load) else set()
+        if isinstance(e, ast.Attribute):
+            return self.attr_sites(e, fi)
+        if isinstance(e, ast.Subscript):
+            b = e.value
+            if isinstance(b, ast.Name):
+                return set(self.dos_var.get((fi.qualname, b.id), ()))
+            if isinstance(b, ast.Attribute):
+                return self.attr_sites(b, fi, self.dos_attr)
+            return set()
+        if isinstance(e, ast.Set):
+            ks = set()
+            for x in e.elts:
+                ks |= self.kind_of(x, fi)
+            return {self.site(fi, e, ks)}
+        if isinstance(e, ast.SetComp):
+            return {self.site(fi, e, self.kind_of(e.elt, fi))}
+        if isinstance(e, ast.IfExp):
+            return self.sets(e.body, fi) | self.sets(e.orelse, fi)
+        if isinstance(e, ast.BinOp) and isinstance(e.op, (ast.BitOr, ast.BitAnd, ast.Sub, ast.BitXor)):
+            l, r = self.sets(e.left, fi), self.sets(e.right, fi)
+            keyish = [x for x in (e.left, e.right) if isinstance(x, ast.Call) and last_name(x) in ("keys", "items")]
+            if l or r or keyish:
+                out = l | r
+                if keyish or not (l and r):
+                    out.add(self.site(fi, e, {"unknown"} if keyish else ()))
+                return out
+            return set()
+        if isinstance(e, ast.Call):
+            ln = last_name(e)
+            if isinstance(e.func, ast.Name) and ln in ("set", "frozenset") and self.builtin(ln, fi):
+                ks = set()
+                if e.args:
+                    ks = self.elem_kinds(e.args[0], fi)
+                return {self.site(fi, e, ks)}
+            q = w.qualify(e.func, fi.module)
+            if q in SET_RETURNING_EXTERNALS:
+                return {self.site(fi, e, {SET_RETURNING_EXTERNALS[q]})}
+            if isinstance(e.func, ast.Attribute) and ln in SET_METHODS_SAME:
+                out = self.sets(e.func.value, fi)
+                if out:
+                    for a in e.args:
+                        out |= self.sets(a, fi)
+                    return out
+            out = set()
+            for g, _, _ in w.resolve_call(e, fi):
+                out |= self.ret.get(g.qualname, set())
+            return out
+        return set()
+
+    # ---- kinds ---------------------------------------------------------------------------------------
+    def elem_kinds(self, e, fi, depth=0):
+        """Kinds of the elements obtained by iterating `e`."""
+        key = ("e", id(e))
+        if not self.kinds_on:
+            return set()
+        if depth > 8 or key in self._busy:
+            return set() if key in self._busy else {"unknown"}
+        self._busy.add(key)
+        try:
+            return self._elem_kinds(e, fi, depth)
+        finally:
+            self._busy.discard(key)
+
+    def _elem_kinds(self, e, fi, depth):
+        ss = self.sets(e, fi)
+        if ss:
+            out = set()
+            for s in ss:
+                out |= self.ek[s]
+            return out
+        if isinstance(e, (ast.List, ast.Tuple)):
+            out = set()
+            for x in e.elts:
+                out |= self.kind_of(x, fi, depth + 1)
+            return out
+        if isinstance(e, (ast.ListComp, ast.GeneratorExp)):
+            return self.kind_of(e.elt, fi, depth + 1)
+        if isinstance(e, ast.Attribute):
+            if e.attr in ATTR_ELEMS:
+                return {ATTR_ELEMS[e.attr]}
+            return {"unknown"}
+        if isinstance(e, ast.Call):
+            ln = last_name(e)
+            if ln in CALL_ELEMS:
+                return {CALL_ELEMS[ln]}
+            if ln in SAME_ELEMS:
+                if isinstance(e.func, ast.Attribute) and ln in ("copy", "tolist"):
+                    return self.elem_kinds(e.func.value, fi, depth + 1)
+                if e.args:
+                    return self.elem_kinds(e.args[0], fi, depth + 1)
+            if ln in ("keys", "values", "items"):
+                return {"unknown"}
+            return {"unknown"}
+        if isinstance(e, ast.Name):
+            out = set()
+            bs = self.t.bindings(e.id, fi, e)
+            if not bs:
+                return {"unknown"}
+            for b, sc in bs:
+                if b[0] == "value":
+                    out |= self.elem_kinds(b[1], sc, depth + 1)
+                else:
+                    out.add("unknown")
+            # list built by append / extend
+            for n in self.w.own(fi):
+                if isinstance(n, ast.Call) and isinstance(n.func, ast.Attribute) and isinstance(n.func.value, ast.Name) and n.func.value.id == e.id and n.args:
+                    if n.func.attr in ("append", "add"):
+                        out |= self.kind_of(n.args[0], fi, depth + 1)
+                    elif n.func.attr in ("extend", "update"):
+                        out |= self.elem_kinds(n.args[0], fi, depth + 1)
+            return out
+        return {"unknown"}
+
+    def kind_of(self, e, fi, depth=0):
+        """Kind of one value used as a set element."""
+        key = ("k", id(e))
+        if not self.kinds_on:
+            return set()
+        if depth > 8 or key in self._busy:
+            return set() if key in self._busy else {"unknown"}
+        self._busy.add(key)
+        try:
+            return self._kind_of(e, fi, depth)
+        finally:
+            self._busy.discard(key)
+
+    def _kind_of(self, e, fi, depth):
+        if isinstance(e, ast.Constant):
+            return {"int"} if isinstance(e.value, int) and not isinstance(e.value, bool) else ({"str"} if isinstance(e.value, str) else {"unknown"})
+        ss = self.sets(e, fi)
+        if ss:
+            inner = set()
+            for s in ss:
+                inner |= self.ek[s]
+            return {"fsint"} if inner <= {"int"} else {"fs-of-" + "/".join(sorted(inner))}
+        if isinstance(e, ast.Attribute):
+            return {ATTR_KIND.get(e.attr, "unknown")}
+        if isinstance(e, ast.Call):
+            return {CALL_KIND.get(last_name(e), "unknown")}
+        if isinstance(e, ast.BinOp):
+            a, b = self.kind_of(e.left, fi, depth + 1), self.kind_of(e.right, fi, depth + 1)
+            return {"int"} if a == {"int"} and b == {"int"} else {"unknown"}
+        if isinstance(e, ast.Name):
+            out = set()
+            bs = self.t.bindings(e.id, fi, e)
+            if not bs:
+                return {"unknown"}
+            for b, sc in bs:
+                if b[0] == "value":
+                    out |= self.kind_of(b[1], sc, depth + 1)
+                elif b[0] == "iter":
+                    tgt, it = b[1], b[2]
+                    if isinstance(tgt, ast.Name):
+                        out |= self.elem_kinds(it, sc, depth + 1) or {"unknown"}
+                    elif isinstance(tgt, ast.Tuple) and isinstance(it, ast.Call) and call_name(it) == "enumerate" and u(tgt.elts[0]) == e.id:
+                        out.add("int")
+                    elif isinstance(tgt, ast.Tuple) and isinstance(it, ast.Call) and call_name(it) == "enumerate" and len(tgt.elts) == 2 and u(tgt.elts[1]) == e.id and it.args:
+                        out |= self.elem_kinds(it.args[0], sc, depth + 1) or {"unknown"}
+                    else:
+                        out.add("unknown")
+                else:
+                    out.add("unknown")
+            return out
+        return {"unknown"}
+
+    # ---- one propagation round over a scope ----------------------------------------------------------
+    def is_dos_ctor(self, v, fi):
+        return isinstance(v, ast.Call) and last_name(v) == "defaultdict" and v.args and isinstance(v.args[0], ast.Name) and v.args[0].id in ("set", "frozenset")
+
+    def store(self, tgt, val, fi):
+        ss = self.sets(val, fi) if val is not None else set()
+        dos = val is not None and self.is_dos_ctor(val, fi)
+        cls = self.w.owner_class(fi)
+        if isinstance(tgt, ast.Name):
+            self._add(self.var, (fi.qualname, tgt.id), ss)
+            if dos:
+                self._add(self.dos_var, (fi.qualname, tgt.id), {self.site(fi, val)})
+        elif isinstance(tgt, ast.Attribute):
+            own = cls.qualname if (isinstance(tgt.value, ast.Name) and tgt.value.id == "self" and cls is not None) else "*"
+            if ss:
+                self._add(self.attr, tgt.attr, ss)
+                self._add(self.attr_owner, tgt.attr, {own})
+            if dos:
+                self._add(self.dos_attr, tgt.attr, {self.site(fi, val)})
+                self._add(self.attr_owner, tgt.attr, {own})
+        elif isinstance(tgt, ast.Subscript) and ss:
+            b = tgt.value
+            if isinstance(b, ast.Name):
+                self._add(self.dos_var, (fi.qualname, b.id), ss)
+            elif isinstance(b, ast.Attribute):
+                self._add(self.dos_attr, b.attr, ss)
+        elif isinstance(tgt, (ast.Tuple, ast.List)) and isinstance(val, (ast.Tuple, ast.List)) and len(val.elts) == len(tgt.elts):
+            for t, v in zip(tgt.elts, val.elts):
+                self.store(t, v, fi)
+
+    def round(self, fi):
+        w = self.w
+        for n in w.own(fi):
+            if isinstance(n, ast.Assign):
+                for t in n.targets:
+                    self.store(t, n.value, fi)
+            elif isinstance(n, ast.AnnAssign) and n.value is not None:
+                self.store(n.target, n.value, fi)
+            elif isinstance(n, ast.AugAssign):
+                ts = self.sets(n.target, fi)
+                if ts:
+                    self.add_ek(ts, self.elem_kinds(n.value, fi))
+            elif isinstance(n, ast.Return) and n.value is not None and not isinstance(fi, ModuleScope):
+                self._add(self.ret, fi.qualname, self.sets(n.value, fi))
+            elif isinstance(n, (ast.For, ast.comprehension)):
+                # iterating a set of frozensets yields sets
+                its = self.sets(n.iter, fi)
+                if its and isinstance(n.target, ast.Name):
+                    inner = set()
+                    for s_ in its:
+                        inner |= {k for k in self.ek[s_] if k.startswith("fs")}
+                    if inner:
+                        sid = self.site(fi, n.iter, {"int"} if inner == {"fsint"} else {"unknown"})
+                        self._add(self.var, (fi.qualname, n.target.id), {sid})
+            elif isinstance(n, ast.Call):
+                if isinstance(n.func, ast.Attribute) and n.args:
+                    rs = self.sets(n.func.value, fi)
+                    if rs and n.func.attr == "add":
+                        self.add_ek(rs, self.kind_of(n.args[0], fi))
+                    elif rs and n.func.attr in ("update", "intersection_update", "difference_update", "symmetric_difference_update"):
+                        for a in n.args:
+                            self.add_ek(rs, self.elem_kinds(a, fi))
+                # arguments that are sets flow into the callee's parameters
+                argsets = [(i, self.sets(a, fi)) for i, a in enumerate(n.args) if not isinstance(a, ast.Starred)]
+                kwsets = [(k.arg, self.sets(k.value, fi)) for k in n.keywords if k.arg]
+                if any(s_ for _, s_ in argsets) or any(s_ for _, s_ in kwsets):
+                    for g, shift, bound in w.resolve_call(n, fi):
+                        if not self.t._compatible(n, g, shift, bound):
+                            continue
+                        a = g.node.args
+                        pos = [x.arg for x in a.posonlyargs + a.args][bound:]
+                        for i, s_ in argsets:
+                            j = i - shift
+                            if s_ and 0 <= j < len(pos):
+                                self._add(self.var, (g.qualname, pos[j]), s_)
+                        names = set(pos) | {x.arg for x in a.kwonlyargs}
+                        for k, s_ in kwsets:
+                            if s_ and k in names:
+                                self._add(self.var, (g.qualname, k), s_)
+
+    def solve(self):
+        """Phase 1: which values are sets (creation sites, flow).  Phase 2: element kinds per site."""
+        scopes = list(self.w.scopes())
+        total = 0
+        for phase in (False, True):
+            self.kinds_on = phase
+            for it in range(12):
+                self.changed = False
+                for fi in scopes:
+                    self.round(fi)
+                total += 1
+                if not self.changed:
+                    break
+            else:
+                raise AnalysisError("R3: set-type propagation did not converge")
+        return total
+
+
+def classify_use(facts, fi, e, sites):
+    """-> (cls, text) with cls in FREE | ORDER | SORT | FLOW | UNCLASSIFIED for one occurrence of a set."""
+    w = facts.w
+    p = w.parent(fi, e)
+    if isinstance(p, ast.Attribute) and p.value is e:
+        pp = w.parent(fi, p)
+        if isinstance(pp, ast.Call) and pp.func is p:
+            m = p.attr
+            if m == "pop":
+                return "ORDER", "%s.pop() returns an arbitrary element" % u(e)
+            if m in FREE_METHODS or m in SET_METHODS_SAME:
+                return "FREE", "set method .%s()" % m
+            return "UNCLASSIFIED", "method .%s() on a set" % m
+        return "UNCLASSIFIED", "attribute .%s of a set" % p.attr
+    if isinstance(p, (ast.For, ast.AsyncFor, ast.comprehension)) and p.iter is e:
+        return "ORDER", "iteration: for %s in %s" % (u(p.target), u(e)[:50])
+    if isinstance(p, ast.Compare):
+        return "FREE", "membership / equality test"
+    if isinstance(p, (ast.BoolOp, ast.UnaryOp, ast.Assert, ast.Expr)) or (isinstance(p, (ast.If, ast.While, ast.IfExp)) and p.test is e):
+        return "FREE", "truth value"
+    if isinstance(p, ast.BinOp):
+        return "FREE", "set algebra"
+    if isinstance(p, (ast.Assign, ast.AnnAssign, ast.Return, ast.NamedExpr, ast.Lambda, ast.IfExp, ast.Yield)):
+        return "FLOW", "assigned / returned"
+    if isinstance(p, ast.AugAssign):
+        return "FREE", "in-place set update"
+    if isinstance(p, (ast.Tuple, ast.List, ast.Dict, ast.Set)):
+        return "FREE", "stored as one item of a %s" % type(p).__name__.lower()
+    if isinstance(p, ast.Subscript):
+        return ("FREE", "used as a key") if p.slice is e else ("FLOW", "container of sets")
+    if isinstance(p, ast.Starred):
+        return "ORDER", "unpacked with *"
+    if isinstance(p, ast.FormattedValue):
+        return "ORDER", "formatted into a string"
+    if isinstance(p, ast.keyword):
+        p2 = w.parent(fi, p)
+        return _classify_arg(facts, fi, p2, e, sites)
+    if isinstance(p, ast.Call) and (e in p.args):
+        return _classify_arg(facts, fi, p, e, sites)
+    if isinstance(p, (ast.ListComp, ast.SetComp, ast.GeneratorExp, ast.DictComp)):
+        return "FLOW", "element of a comprehension"
+    return "UNCLASSIFIED", "%s" % type(p).__name__
+
+
+def _classify_arg(facts, fi, call, e, sites):
+    ln = last_name(call)
+    is_name = isinstance(call.func, ast.Name)
+    if is_name and facts.builtin(ln, fi):
+        if ln in FREE_FUNCS:
+            return "FREE", "%s(...)" % ln
+        if ln in SORTLIKE:
+            k = kwarg(call, "key")
+            if k is not None and any(isinstance(x, ast.Name) and x.id in ("hash", "id") for x in ast.walk(k)):
+                return "ORDER", "%s(..., key=%s) orders by hash / address" % (ln, u(k))
+            return "SORT", "%s(...)" % ln
+        return "ORDER", "%s(...) observes iteration order" % ln
+    if not is_name and ln in FREE_METHODS:
+        return "FREE", ".%s(...)" % ln
+    if facts.w.resolve_call(call, fi):
+        return "FLOW", "passed to %s" % call_name(call)
+    return "ORDER", "passed to %s, which may observe iteration order" % call_name(call)
+
+
+def rule_R3(ctx, world, tracer, reach):
+    ctx.rule("R3", "every set/frozenset value created in code reachable from run.run is order-observed (iteration, pop, list(), …) only when its elements are ints / frozensets of ints; hash() values stay inside __hash__", 7)
+    facts = SetFacts(world, tracer)
+    rounds = facts.solve()
+    uses = {}  # site -> [(cls, text, where, reachable)]
+    for fi in world.scopes():
+        r = isinstance(fi, ModuleScope) or fi.qualname in reach
+        for n in world.own(fi):
+            if not isinstance(n, (ast.Name, ast.Attribute, ast.Subscript, ast.Call, ast.Set, ast.SetComp, ast.BinOp, ast.IfExp)):
+                continue
+            if isinstance(getattr(n, "ctx", None), (ast.Store, ast.Del)):
+                continue
+            ss = facts.sets(n, fi)
+            if not ss:
+                continue
+            cls, text = classify_use(facts, fi, n, ss)
+            for s_ in ss:
+                uses.setdefault(s_, []).append((cls, text, fi.where(n), r, fi.qualname))
+    listing = []
+    for sid in sorted(facts.info):
+        sfi, node = facts.info[sid]
+        us = uses.get(sid, [])
+        s_reach = isinstance(sfi, ModuleScope) or sfi.qualname in reach
+        if not s_reach and not any(x[3] for x in us):
+            continue
+        ek = facts.ek[sid]
+        det = ek <= DET
+        total = ek <= {"int", "str"} and len(ek) <= 1
+        bad = []
+        seen_order = []
+        for cls, text, where, r, fq in us:
+            if not r:
+                continue
+            if cls == "ORDER":
+                seen_order.append("%s at %s" % (text, where))
+                if not det:
+                    bad.append("%s at %s" % (text, where))
+            elif cls == "SORT":
+                if not (total or det and ek <= {"int"}):
+                    bad.append("%s over elements without a hash-independent total order at %s" % (text, where))
+            elif cls == "UNCLASSIFIED" and not det:
+                raise AnalysisError("R3: unclassified use of a set with elements %s: %s at %s" % (sorted(ek), text, where))
+        kinds = "/".join(sorted(ek)) or "empty"
+        if det:
+            reason = "elements %s: hash not randomised, so iteration order is a function of the insertion history" % kinds
+        else:
+            reason = "elements %s (hash may be randomised) but the value is only hashed / compared / membership-tested / counted" % kinds
+        inst = "%s: %s" % (sfi.qualname, u(node)[:70])
+        listing.append({"site": inst, "where": sfi.where(node), "elements": kinds, "reason": reason if not bad else "VIOLATED", "order_sensitive_uses": seen_order,
+                        "uses": sorted({"%s: %s" % (c, t) for c, t, _, r, _ in us if r})})
+        ctx.check(not bad, "R3", inst, sfi.where(node), "set with elements %s is order-observed: %s — the order depends on PYTHONHASHSEED" % (kinds, "; ".join(bad)), construct=sfi.qualname, stmt=u(node), detail=reason)
+        ctx.analysed(sfi)
+    ctx.extra["R3_sites"] = listing
+    ctx.extra["R3_rounds"] = rounds
+    # hash() / id() confinement
+    hash_attrs = {}
+    for fi in world.scopes():
+        if not (isinstance(fi, ModuleScope) or fi.qualname in reach):
+            continue
+        for n in world.own(fi):
+            if isinstance(n, ast.Name) and n.id in ("hash", "id") and isinstance(n.ctx, ast.Load) and facts.builtin(n.id, fi):
+                p = world.parent(fi, n)
+                inst = "%s: %s" % (fi.qualname, u(p)[:70])
+                if not (isinstance(p, ast.Call) and p.func is n):
+                    ctx.fail("R3", inst, fi.where(n), "builtin %s used as a value (ordering / keying by hash or address depends on PYTHONHASHSEED / the allocator)" % n.id, construct=fi.qualname, stmt=u(p))
+                    continue
+                if n.id == "id":
+                    ctx.fail("R3", inst, fi.where(n), "id() values differ between processes", construct=fi.qualname, stmt=u(p))
+                    continue
+                # walk up to the statement
+                st = p
+                while not isinstance(st, ast.stmt):
+                    st = world.parent(fi, st)
+                if isinstance(st, ast.Return) and fi.name == "__hash__":
+                    ctx.ok("R3", inst, fi.where(n), "hash value returned by __hash__ only")
+                elif isinstance(st, ast.Assign) and len(st.targets) == 1 and isinstance(st.targets[0], ast.Attribute) and st.value is p:
+                    hash_attrs.setdefault(st.targets[0].attr, []).append((fi, p, inst))
+                else:
+                    ctx.fail("R3", inst, fi.where(n), "a hash value (randomised per process for str-keyed objects) flows into %s" % u(st)[:60], construct=fi.qualname, stmt=u(p))
+    for a, lst in hash_attrs.items():
+        readers = []
+        for fi in world.scopes():
+            for n in world.own(fi):
+                if isinstance(n, ast.Attribute) and n.attr == a and isinstance(n.ctx, ast.Load):
+                    st = n
+                    while not isinstance(st, ast.stmt):
+                        st = world.parent(fi, st)
+                    okr = fi.name == "__hash__" and isinstance(st, ast.Return)
+                    # copying the cached hash into the same attribute of another object keeps it confined
+                    okr = okr or (isinstance(st, ast.Assign) and len(st.targets) == 1 and isinstance(st.targets[0], ast.Attribute) and st.targets[0].attr == a and st.value is n)
+                    if not okr:
+                        readers.append("%s at %s" % (u(st)[:50], fi.where(n)))
+        for fi, p, inst in lst:
+            ctx.check(not readers, "R3", inst, fi.where(p), "the cached hash .%s is read outside __hash__: %s" % (a, "; ".join(readers)), construct=fi.qualname, stmt=u(p), detail="cached in .%s, read only by __hash__" % a)
+    return facts
+
+
+# =====================================================================================================
+# R4 — no scheduling or clock dependence
+# =====================================================================================================
+
+def _stmt_of(world, fi, n):
+    while n is not None and not isinstance(n, ast.stmt):
+        n = world.parent(fi, n)
+    return n
+
+
+def _inside_print(world, fi, n, facts):
+    for a in world.ancestors(fi, n):
+        if isinstance(a, ast.Call) and isinstance(a.func, ast.Name) and a.func.id == "print" and facts.builtin("print", fi):
+            return True
+        if isinstance(a, ast.stmt):
+            return False
+    return False
+
+
+def rule_R4(ctx, world, tracer, reach, facts):
+    prog = ctx.prog
+    ctx.rule("R4", "completion order (as_completed) feeds only keyed storage and printing; wall-clock values flow only into the 'time' field, prints and the max_time break", 3)
+    # ---- (a) completion order ----------------------------------------------------------------------
+    for fi in world.scopes():
+        if not (isinstance(fi, ModuleScope) or fi.qualname in reach):
+            continue
+        for n in world.own(fi):
+            if not (isinstance(n, ast.Call) and (world.qualify(n.func, fi.module) or "").endswith("futures.as_completed")):
+                continue
+            p = world.parent(fi, n)
+            inst = "%s: consumers of %s" % (fi.qualname, u(n))
+            offenders = []
+            if isinstance(p, ast.Call) and call_name(p) == "enumerate":
+                p2 = world.parent(fi, p)
+                if isinstance(p2, (ast.For, ast.comprehension)) and isinstance(p2.target, ast.Tuple) and isinstance(p2.target.elts[0], ast.Name):
+                    cname = p2.target.elts[0].id
+                    for x in world.own(fi):
+                        if isinstance(x, ast.Name) and x.id == cname and isinstance(x.ctx, ast.Load) and not _inside_print(world, fi, x, facts):
+                            offenders.append("completion counter %s used in `%s`" % (cname, u(_stmt_of(world, fi, x))[:60]))
+                    p = p2
+                else:
+                    raise AnalysisError("R4: unrecognised use of enumerate(as_completed(...)) at %s" % fi.where(n))
+            if isinstance(p, ast.comprehension):
+                comp = world.parent(fi, p)
+                if isinstance(comp, ast.DictComp):
+                    if ".result()" not in expand(tracer, comp.key, fi):
+                        offenders.append("dict comprehension keyed by %s, which is not carried in the result" % u(comp.key))
+                else:
+                    offenders.append("a %s built in completion order" % type(comp).__name__)
+            elif isinstance(p, (ast.For, ast.AsyncFor)):
+                body_nodes = [x for st in p.body + p.orelse for x in ast.walk(st)]
+                inner_names = {x.id for x in body_nodes if isinstance(x, ast.Name) and isinstance(x.ctx, ast.Store)} | {x.id for x in ast.walk(p.target) if isinstance(x, ast.Name)}
+                counters = set()
+                for x in body_nodes:
+                    if isinstance(x, ast.AugAssign):
+                        counters.add(u(x.target))
+                    elif isinstance(x, ast.Assign) and len(x.targets) == 1 and isinstance(x.targets[0], ast.Subscript):
+                        k = expand(tracer, x.targets[0].slice, fi)
+                        bad_key = ".result()" not in k or any(isinstance(y, ast.Call) and call_name(y) in ("len", "next", "count") for y in ast.walk(x.targets[0].slice))
+                        if bad_key:
+                            offenders.append("`%s` stores under %s, which is a function of completion order, not of the result" % (u(x)[:60], u(x.targets[0].slice)))
+                    elif isinstance(x, ast.Assign) and any(isinstance(t, ast.Attribute) for t in x.targets):
+                        offenders.append("`%s` overwrites an attribute in completion order" % u(x)[:60])
+                    elif isinstance(x, ast.Call) and isinstance(x.func, ast.Attribute) and x.func.attr in ("append", "extend", "insert", "appendleft", "put", "write"):
+                        r = x.func.value
+                        root = r
+                        while isinstance(root, (ast.Attribute, ast.Subscript)):
+                            root = root.value
+                        if not (isinstance(root, ast.Name) and root.id in inner_names):
+                            offenders.append("`%s` accumulates in completion order" % u(x)[:60])
+                for c in counters:
+                    for x in world.own(fi):
+                        if isinstance(x, (ast.Name, ast.Attribute)) and u(x) == c and isinstance(x.ctx, ast.Load) and not _inside_print(world, fi, x, facts):
+                            offenders.append("completion counter %s used in `%s`" % (c, u(_stmt_of(world, fi, x))[:60]))
+            else:
+                raise AnalysisError("R4: as_completed(...) consumed by an unrecognised construct at %s" % fi.where(n))
+            ctx.check(not offenders, "R4", inst, fi.where(n), "the order in which chains finish reaches the output: %s" % "; ".join(sorted(set(offenders))), construct=fi.qualname, stmt="as_completed consumers")
+            ctx.analysed(fi)
+    # ---- (b) wall clock ------------------------------------------------------------------------------
+    timer = prog.cls("utils.utils.Timer")
+    tfam = {c.qualname for c in prog.subclasses(timer)} | {timer.qualname}
+    clock_attrs = set()
+    for _ in range(4):
+        for m in timer.methods.values():
+            tainted_locals = set()
+            for x in sorted((y for y in world.own(m) if isinstance(y, (ast.Assign, ast.AugAssign))), key=lambda y: y.lineno):
+                val = x.value
+                is_clock = any((isinstance(y, ast.Call) and (u(y.func).startswith("self._func") or (world.qualify(y.func, m.module) or "").split(".")[0] in ("time", "datetime")))
+                               or (isinstance(y, ast.Name) and y.id in tainted_locals)
+                               or (isinstance(y, ast.Attribute) and isinstance(y.value, ast.Name) and y.value.id == "self" and y.attr in clock_attrs and isinstance(y.ctx, ast.Load))
+                               for y in ast.walk(val))
+                if not is_clock and isinstance(x, ast.Assign):
+                    continue
+                for t in (x.targets if isinstance(x, ast.Assign) else [x.target]):
+                    if isinstance(t, ast.Name) and is_clock:
+                        tainted_locals.add(t.id)
+                    elif isinstance(t, ast.Attribute) and is_clock:
+                        clock_attrs.add(t.attr)
+    if not clock_attrs:
+        raise AnalysisError("R4: Timer stores no clock-derived attribute; the clock model is out of date")
+    ctx.note("R4: clock-derived attributes of Timer: %s" % sorted(clock_attrs))
+    sources = []
+    for fi in world.scopes():
+        if not (isinstance(fi, ModuleScope) or fi.qualname in reach):
+            continue
+        cls = world.owner_class(fi)
+        if cls is not None and cls.qualname in tfam:
+            continue
+        for n in world.own(fi):
+            if isinstance(n, ast.Attribute) and n.attr in clock_attrs and isinstance(n.ctx, ast.Load):
+                # only attributes of timer-like receivers: the attribute name is unique to Timer today
+                sources.append((fi, n, "%s" % u(n)))
+            elif isinstance(n, ast.Call):
+                q = world.qualify(n.func, fi.module) or ""
+                if q.split(".")[0] in ("time", "datetime") and q.split(".")[-1] not in ("sleep",):
+                    sources.append((fi, n, u(n)))
+    key_names = {"time"}
+
+    def sink(fi, n, depth=0):
+        """-> (ok, description) for where the clock value `n` goes."""
+        if _inside_print(world, fi, n, facts):
+            return True, "printed"
+        cur = n
+        for a in world.ancestors(fi, n):
+            if isinstance(a, ast.Dict):
+                for k, v in zip(a.keys, a.values):
+                    if v is cur:
+                        if isinstance(k, ast.Constant) and k.value in key_names:
+                            return True, "the %r field of the trace entry" % k.value
+                        return False, "stored under key %s" % u(k)
+            if isinstance(a, ast.If) and any(cur is x for x in ast.walk(a.test)):
+                only_break = len(a.body) == 1 and isinstance(a.body[0], ast.Break) and not a.orelse
+                if only_break and isinstance(a.test, ast.Compare):
+                    return True, "the time-limit break `if %s: break`" % u(a.test)
+                return False, "controls `if %s`" % u(a.test)[:60]
+            if isinstance(a, (ast.While, ast.IfExp)) and any(cur is x for x in ast.walk(a.test)):
+                return False, "controls `%s`" % u(a.test)[:60]
+            if isinstance(a, ast.Assign) and len(a.targets) == 1 and isinstance(a.targets[0], ast.Name) and depth < 4:
+                nm = a.targets[0].id
+                res = []
+                for x in world.own(fi):
+                    if isinstance(x, ast.Name) and x.id == nm and isinstance(x.ctx, ast.Load):
+                        res.append(sink(fi, x, depth + 1))
+                bad = [d for okk, d in res if not okk]
+                if bad:
+                    return False, "via %s: %s" % (nm, bad[0])
+                return True, "via local %s: %s" % (nm, ", ".join(sorted({d for _, d in res})) or "unused")
+            if isinstance(a, ast.stmt):
+                return False, "flows into `%s`" % u(a)[:70]
+            cur = a
+        return False, "escapes"
+
+    for fi, n, text in sources:
+        okk, desc = sink(fi, n)
+        ctx.check(okk, "R4", "%s: clock value %s -> %s" % (fi.qualname, text, desc if okk else "?"), fi.where(n), "a wall-clock value %s" % desc, construct=fi.qualname, stmt="%s in %s" % (text, u(_stmt_of(world, fi, n))[:60]), detail=desc)
+        ctx.analysed(fi)
+
+
 def run(ctx):
+    ctx.assume("numpy Generator / SeedSequence.spawn, scipy rvs(random_state=Generator), numba and rustworkx are deterministic functions of their inputs (bitwise library determinism is not decided)")
+    ctx.assume("hash(int) and hash(frozenset of ints) do not depend on PYTHONHASHSEED; str / bytes hashes do; set iteration order is a function of element hashes and insertion history")
+    ctx.assume("role table: node identifiers and data-point indices are ints; DataPoint hashes by its (str) name")
+    ctx.assume("compared runs use the same max_time budget semantics: the documented `timer.elapsed > max_time` break (default: never) is the one sanctioned clock dependence")
     world = World(ctx.prog)
     tracer = Tracer(world)
     entry = ctx.prog.fn(ENTRY)
@@ -1317,6 +2003,8 @@ def run(ctx):
     rule_R1(ctx, world, tracer, reach)
     rule_R1f(ctx, world)
     rule_R2(ctx, world, tracer)
+    facts = rule_R3(ctx, world, tracer, reach)
+    rule_R4(ctx, world, tracer, reach, facts)
 
 
 SELFTEST = []
